@@ -99,7 +99,7 @@ func c27Offsets(t *rapid.T, v *c27Victim, exhaustiveBelow, sampled int) []int {
 		}
 	} else {
 		for _, b := range v.Info.Boxes {
-			for _, o := range []int{b.Off - 1, b.Off, b.Off + 1, b.Off + b.HdrLen, b.End - 1, b.End, b.End + 1} {
+			for _, o := range []int{b.Off - 1, b.Off, b.Off + 1, b.End - 1, b.End, b.End + 1} {
 				if o >= 0 && o <= n {
 					set[o] = true
 				}
